@@ -62,6 +62,9 @@ ParseCacheValue = typing.Union[MatchSet, "ParseError"]
 class ParseCache(typing.MutableMapping[ParseCacheKey, ParseCacheValue]):
     max_cache_size: int | None = None
     objects: WeakSet[ParseCache] = WeakSet()
+    # bumped whenever a rule is (re)defined, flagged or given an exclusion; entries
+    # stored under an older epoch were computed from a grammar that no longer exists.
+    epoch: int = 0
 
     def __new__(cls, max_size: int | None = None):
         obj = super().__new__(cls)
@@ -78,8 +81,20 @@ class ParseCache(typing.MutableMapping[ParseCacheKey, ParseCacheValue]):
         self.max_size = max_size
         self.hits = 0
         self.misses = 0
+        self.dict_epoch = ParseCache.epoch
+
+    def _drop_stale(self):
+        if self.dict_epoch != ParseCache.epoch:
+            self.dict = OrderedDict()
+            self.dict_epoch = ParseCache.epoch
+
+    @classmethod
+    def invalidate(cls):
+        """Marks every cached result as stale; called whenever the grammar changes."""
+        ParseCache.epoch = ParseCache.epoch + 1
 
     def __getitem__(self, key: ParseCacheKey) -> ParseCacheValue:
+        self._drop_stale()
         try:
             value = self.dict[key]
         except KeyError:
@@ -92,17 +107,21 @@ class ParseCache(typing.MutableMapping[ParseCacheKey, ParseCacheValue]):
 
     def __setitem__(self, key: ParseCacheKey, value: ParseCacheValue):
         # here we want to expel least recently used entries, defined to the first entries in the order.
+        self._drop_stale()
         self.dict[key] = value
         if self.max_size and len(self.dict) > self.max_size:
             self.dict.popitem(last=False)
 
     def __delitem__(self, key: ParseCacheKey):
+        self._drop_stale()
         del self.dict[key]
 
     def __iter__(self):
+        self._drop_stale()
         return self.dict.__iter__()
 
     def __len__(self):
+        self._drop_stale()
         return len(self.dict)
 
     def __hash__(self):
@@ -416,6 +435,7 @@ class Rule:
         if definition is not None:
             # when defined-as = '=/', we'll need to overwrite existing definition.
             self.definition = definition
+            ParseCache.invalidate()
 
     @property
     def first_match_alternation(self) -> bool:
@@ -436,6 +456,7 @@ class Rule:
         else:
             if isinstance(definition, Alternation):
                 definition.first_match = value
+                ParseCache.invalidate()
             else:
                 # skip.  Or should some exception be raised?
                 pass
@@ -454,6 +475,7 @@ class Rule:
         Then attempting to use "foo" as an identifier would result in a ParseError.
         """
         self.exclude = rule
+        ParseCache.invalidate()
 
     def lparse(self, source: Source, start: int) -> Matches:
         def exclude(match: Match) -> bool:
@@ -1243,6 +1265,7 @@ class ABNFGrammarNodeVisitor(NodeVisitor):
         rule.definition = (
             elements if defined_as == "=" else Alternation(rule.definition, elements)
         )
+        ParseCache.invalidate()
         return rule
 
     def visit_rulelist(self, node: Node):
